@@ -16,8 +16,8 @@ Nodes0o  == {0, 100}
 R123     == {1, 2, 3}
 R0123    == {0, 1, 2, 3}
 NoFix    == {}
-AllFixes == {"attach", "stale", "mono"}
-Intended == {"attach", "stale", "mono", "persist", "onchain"}
+AllFixes == {"attach", "stale", "mono", "persist", "onchain"}
+BeforeF56 == {"attach", "stale", "mono"}
 
 \* ---------------------------------------------------------------- scripted block trees
 \* A script is a sequence of <<bp, parent>> or <<bp, parent, conf>> in creation order (parent = index of an earlier
@@ -87,7 +87,14 @@ T4iExec == {MarkBad(T4i, 6, "exec"), MarkBad(T4i, 7, "exec"), MarkBad(T4i, 8, "e
 \* proposal becomes a1, and it survives the return to b3 (its number is not above the rollback target): STALE2.
 T4j == Tree(<< <<3,0>>, <<2,1>>, <<0,2>>, <<3,3>>, <<1,0>>, <<1,5>>, <<1,6>> >>)
 T4jExec == {MarkBad(T4j, 4, "exec")}
-T4ijExec == T4iExec \cup T4jExec
+
+\* T4k: found by simulating the repaired design.  The observer is on b1..b5 (producer 0 alone, blocks 8..12); the branch
+\* a1..a7 (blocks 1..7, producers 2,3,1,1,3,2,3) is longer; a1..a6 execute and give a1 its quorum (the LIB becomes a1,
+\* legitimately), then a7 does not execute and the node returns to b5: its LIB is not on its chain.  This is the finality
+\* side of known finding C07-valid-prefix-not-adopted (the valid, longer prefix a1..a6 is not adopted).
+T4k == MarkBad(Tree(<< <<2,0,1>>, <<3,1,2>>, <<1,2,3>>, <<1,3,1>>, <<3,4,3>>, <<2,5,5>>, <<3,6,2>>,
+                       <<0,0,1>>, <<0,8,1>>, <<0,9,1>>, <<0,10,1>>, <<0,11,1>> >>), 7, "exec")
+ST4k == {T4k}
 ST3  == {T3}
 ST4  == {T4}
 ST4s == {T4s}
